@@ -485,7 +485,11 @@ func (e *SpecEnv) evalQuant(x *SQuant) Val {
 			guards = append(guards, g)
 		}
 	}
-	body := ne.eval(x.Body)
+	c.qdepth++
+	body := func() Val {
+		defer func() { c.qdepth-- }()
+		return ne.eval(x.Body)
+	}()
 	if !isBool(body.T) {
 		e.fail("quantifier body is not boolean")
 	}
@@ -840,7 +844,31 @@ func (e *SpecEnv) evalCall(x *SCall) Val {
 			_, wantPtr := want.Underlying().(*types.Pointer)
 			_, havePtr := recv.T.Underlying().(*types.Pointer)
 			if wantPtr && !havePtr {
-				e.fail("method %s needs an addressable receiver", sel.Sel)
+				// pointer-receiver method on a value (e.g. an element of a slice): evaluate it on a temporary copy
+				if e.st == nil {
+					e.fail("method %s on a value needs a state", sel.Sel)
+				}
+				c.needDecl("spec_tmp_ref", "(declare-const spec_tmp_ref Int)")
+				if !c.needed["spec_tmp_ref_ax"] {
+					c.needed["spec_tmp_ref_ax"] = true
+					c.axiom("(= spec_tmp_ref (- 999983))", "spec_tmp_ref")
+				}
+				elemT := want.Underlying().(*types.Pointer).Elem()
+				tp := &Ptr{Root: "spec_tmp_ref", Obj: elemT}
+				c.inlineDefs++
+				tmpSt := c.store(e.st, tp, recv.S)
+				c.inlineDefs--
+				ne := e.clone()
+				ne.st = tmpSt
+				args[0] = Val{T: want, P: tp}
+				for i, a := range x.Args {
+					v := e.eval(a)
+					if i+1 < len(fn.Params) {
+						v = e.coerce(v, fn.Params[i+1].Type())
+					}
+					args = append(args, v)
+				}
+				return ne.callPure(fn, args)
 			}
 			if !wantPtr && havePtr {
 				p := c.ptrOf(recv)
@@ -1049,6 +1077,10 @@ func (e *SpecEnv) callPure(fn *ssa.Function, args []Val) Val {
 	c := e.c
 	if e.st == nil && !pureExternal(fullName(fn)) {
 		e.fail("pure call %s without state", fn.Name())
+	}
+	if c.qdepth > 0 {
+		c.inlineDefs++
+		defer func() { c.inlineDefs-- }()
 	}
 	// contract marked pure with uninterpreted semantics?
 	rt := fn.Signature.Results()
